@@ -298,6 +298,13 @@ def make_ckpt_fault(rng: random.Random, disk_sd: dict, n_groups: int) -> tuple[d
     if kind == "subtree_lost":
         import json
 
+        try:
+            for flat in sd["state"].values():
+                for k in flat:
+                    json.loads(k)
+        except Exception:  # noqa: BLE001  (another flat-key encoding: no notion of a subtree, this fault kind is skipped)
+            return None
+
         cands = sorted({(pk, json.loads(k)[0]) for pk, flat in sd["state"].items() for k in flat if len(json.loads(k)) > 1})
         if not cands:
             return None
@@ -372,9 +379,18 @@ def campaign(trace: dict, make_system, probes: Counter, yield_fn=None) -> Violat
                         flat_by_path[(fk,)] = fv
                 if len(flat_by_path) != len(flat):
                     return Violation(ID, "flat_key_collision", k - 1, {**feats, "param": i})
+                used: set = set()
                 for path, t in walked:
                     fv = flat_by_path.get(tuple(path))
-                    if fv is None or not isinstance(fv, torch.Tensor):
+                    if fv is None:
+                        # another (still unique) key encoding: every held tensor must be in the checkpoint under a key of
+                        # its own - matched by value, one saved entry per held tensor
+                        cand = next((fk for fk, v in flat.items() if fk not in used and isinstance(v, torch.Tensor) and spec.bit_equal(v, t)), None)
+                        if cand is None:
+                            return Violation(ID, "leaf_missing_from_checkpoint", k - 1, {**feats, "param": i, "path": [str(x) for x in path]})
+                        used.add(cand)
+                        continue
+                    if not isinstance(fv, torch.Tensor):
                         return Violation(ID, "leaf_missing_from_checkpoint", k - 1, {**feats, "param": i, "path": [str(x) for x in path]})
                     if not spec.bit_equal(fv, t):
                         return Violation(ID, "flat_key_collision", k - 1, {**feats, "param": i, "path": [str(x) for x in path], "note": "value under the path's key differs from the live tensor"})
@@ -460,10 +476,13 @@ def campaign(trace: dict, make_system, probes: Counter, yield_fn=None) -> Violat
 
                     sole = None
                     if desc["kind"] == "key_lost":
-                        path = json.loads(desc["key"])
-                        sibs = [kk for kk in sd_disk["state"][desc["param"]] if json.loads(kk)[:-1] == path[:-1]]
-                        sole = len(sibs) == 1
-                        desc = {**desc, "path": [str(x) for x in path if not str(x).startswith("block_")]}
+                        try:
+                            path = json.loads(desc["key"])
+                            sibs = [kk for kk in sd_disk["state"][desc["param"]] if json.loads(kk)[:-1] == path[:-1]]
+                            sole = len(sibs) == 1
+                            desc = {**desc, "path": [str(x) for x in path if not str(x).startswith("block_")]}
+                        except Exception:  # noqa: BLE001
+                            pass
                     return Violation(ID, tag, k - 1, {**ctx, "fault": desc, "lost_is_sole_child": sole})
             continue
         # ---- restart ----------------------------------------------------------------------------------------------------------
